@@ -394,14 +394,15 @@ def import_primitive_params(
     Returns the result as a dictionary of {name: value}s."""
 
     if target is Vpulse:
+        # Note `None`-valued parameters are not exported, and so may be absent here
         return dict(
-            v1=params["v1"],
-            v2=params["v2"],
-            delay=params["td"],
-            rise=params["tr"],
-            fall=params["tf"],
-            width=params["tpw"],
-            period=params["tper"],
+            v1=params.get("v1"),
+            v2=params.get("v2"),
+            delay=params.get("td"),
+            rise=params.get("tr"),
+            fall=params.get("tf"),
+            width=params.get("tpw"),
+            period=params.get("tper"),
         )
 
     return params
